@@ -115,14 +115,41 @@ impl Write for MemWriter {
     }
 }
 
+// the OS resolves "." and ".." components; the in-memory file system does it lexically
+fn norm_path(path: &Path) -> PathBuf {
+    let mut out: Vec<std::ffi::OsString> = Vec::new();
+    let mut absolute = false;
+    for c in path.components() {
+        match c {
+            std::path::Component::RootDir => absolute = true,
+            std::path::Component::CurDir => {}
+            std::path::Component::ParentDir => {
+                out.pop();
+            }
+            std::path::Component::Normal(s) => out.push(s.to_os_string()),
+            std::path::Component::Prefix(_) => {}
+        }
+    }
+    let mut p = PathBuf::new();
+    if absolute {
+        p.push("/");
+    }
+    for s in out {
+        p.push(s);
+    }
+    p
+}
+
 impl FileSystem for MemFs {
     type Reader = MemReader;
     type Writer = MemWriter;
 
     fn exists(&self, path: &Path) -> bool {
+        let path = &norm_path(path);
         self.files.contains_key(path) || self.dirs.contains(path)
     }
     fn is_dir(&self, path: &Path) -> io::Result<bool> {
+        let path = &norm_path(path);
         if self.dirs.contains(path) {
             Ok(true)
         } else if self.files.contains_key(path) {
@@ -132,6 +159,7 @@ impl FileSystem for MemFs {
         }
     }
     fn is_file(&self, path: &Path) -> io::Result<bool> {
+        let path = &norm_path(path);
         if self.files.contains_key(path) {
             Ok(true)
         } else if self.dirs.contains(path) {
@@ -141,13 +169,14 @@ impl FileSystem for MemFs {
         }
     }
     fn open_read(&self, path: &Path) -> io::Result<Self::Reader> {
+        let path = &norm_path(path);
         match self.files.get(path) {
             Some(data) => Ok(MemReader {
                 data: data.clone(),
                 pos: 0,
                 plan: self
                     .plans
-                    .get(path)
+                    .get(path.as_path())
                     .cloned()
                     .unwrap_or_else(|| self.default_plan.clone()),
                 nread: 0,
@@ -156,6 +185,7 @@ impl FileSystem for MemFs {
         }
     }
     fn open_write(&self, path: &Path) -> io::Result<Self::Writer> {
+        let path = &norm_path(path);
         if self.write_fail.contains(path) {
             return Err(io::Error::new(io::ErrorKind::PermissionDenied, "injected open fault"));
         }
